@@ -365,6 +365,7 @@ pub fn run(ctx: &mut Ctx) {
     set_stall_limit(600);
     live_icmp(ctx);
     wire_ttl(ctx);
+    malformed_icmp_on_the_wire(ctx);
 }
 
 // ---- the real IcmpForwarder on raw sockets (loopback), its waiter table against the Lean table model ----
@@ -702,6 +703,123 @@ fn own_ipv6_address() -> Option<(std::net::Ipv6Addr, String)> {
         let a = u128::from_str_radix(f[0], 16).ok()?;
         Some((std::net::Ipv6Addr::from(a), f[5].to_string()))
     })
+}
+
+/// Malformed ICMP packets from the network (well-formed enough for the kernel's filter, refused by the endpoint's parser:
+/// unassigned codes, messages shorter than their minimum, an echo reply cut short) while the real forwarder listens on raw
+/// sockets, IPv4 and IPv6: each is a packet to drop - the listener must go on (a listener that ends takes the whole endpoint
+/// with it: `Core::listen` joins it with the others), and a ping sent afterwards is still answered.
+fn malformed_icmp_on_the_wire(ctx: &mut Ctx) {
+    use std::time::Duration;
+    use trusttunnel::settings::*;
+    use trusttunnel::shutdown::Shutdown;
+    use trusttunnel::verif::vicmp;
+    let Some(fd4) = raw_icmp_socket() else {
+        ctx.stat("raw_socket_unavailable");
+        return;
+    };
+    let fd6 = unsafe { libc::socket(libc::AF_INET6, libc::SOCK_RAW, libc::IPPROTO_ICMPV6) };
+    let settings = Settings::builder()
+        .listen_address(("127.0.0.1", 1))
+        .unwrap()
+        .listen_protocols(ListenProtocolSettings { http1: Some(Http1Settings::builder().build()), http2: None, quic: None })
+        .ipv6_available(fd6 >= 0)
+        .icmp(IcmpSettings::builder().interface_name("lo").request_timeout(Duration::from_secs(3)).build().unwrap())
+        .build()
+        .unwrap();
+    let hosts = TlsHostsSettings::builder()
+        .main_hosts(vec![TlsHostInfo { hostname: "localhost".into(), cert_chain_path: FIXTURE_PEM.into(), private_key_path: FIXTURE_PEM.into(), allowed_sni: vec![] }])
+        .build()
+        .unwrap();
+    let core = trusttunnel::core::Core::new(settings, None, hosts, Shutdown::new()).unwrap();
+    let rt = tokio::runtime::Builder::new_current_thread().enable_all().build().unwrap();
+    // (type, code, bytes behind the 4-byte header)
+    let v6_packets: Vec<(u8, u8, usize)> = vec![(1, 9, 52), (1, 200, 52), (3, 2, 52), (3, 0, 4), (1, 0, 4), (2, 0, 4), (4, 7, 52), (4, 0, 0), (129, 0, 2), (129, 0, 0)];
+    let v4_packets: Vec<(u8, u8, usize)> = vec![(3, 99, 32), (3, 0, 4), (11, 9, 32), (11, 0, 0), (12, 0, 2), (0, 0, 2), (0, 0, 0), (5, 0, 4), (4, 0, 4)];
+    let id = (std::process::id() as u16).wrapping_mul(89) | 0x1000;
+    let res: Result<Vec<String>, String> = rt.block_on(async {
+        let mut v = match vicmp::spawn(&core, 1) {
+            Some(Ok(v)) => v,
+            Some(Err(e)) => return Err(format!("unavailable: {}", e)),
+            None => return Err("unavailable: no forwarder".into()),
+        };
+        tokio::time::sleep(Duration::from_millis(30)).await;
+        if let Some(e) = v.listen_ended() {
+            return Err(format!("unavailable: listen() ended: {}", e));
+        }
+        let mut problems = vec![];
+        let mut seq = 0u16;
+        let mut rounds: Vec<(bool, (u8, u8, usize))> = v4_packets.iter().map(|p| (false, *p)).collect();
+        if fd6 >= 0 {
+            rounds.extend(v6_packets.iter().map(|p| (true, *p)));
+        }
+        for (is6, (t, c, n)) in rounds {
+            let mut pkt = vec![t, c, 0, 0];
+            pkt.extend((0..n).map(|i| (i as u8).wrapping_mul(7)));
+            if is6 {
+                // (the kernel fills in the ICMPv6 checksum of a raw socket's packets)
+                let addr = libc::sockaddr_in6 { sin6_family: libc::AF_INET6 as u16, sin6_port: 0, sin6_flowinfo: 0, sin6_addr: libc::in6_addr { s6_addr: std::net::Ipv6Addr::LOCALHOST.octets() }, sin6_scope_id: 0 };
+                unsafe {
+                    libc::sendto(fd6, pkt.as_ptr() as *const libc::c_void, pkt.len(), 0, &addr as *const _ as *const libc::sockaddr, std::mem::size_of::<libc::sockaddr_in6>() as u32);
+                }
+            } else {
+                raw_send(fd4, &icmp_with_checksum(pkt));
+            }
+            tokio::time::sleep(Duration::from_millis(20)).await;
+            let what = format!("ICMPv{} type {} code {} with {} byte(s) behind the header", if is6 { 6 } else { 4 }, t, c, n);
+            if let Some(e) = v.listen_ended() {
+                problems.push(format!("after {} arrived from the network the ICMP listener ended ({})", what, e));
+                break;
+            }
+            // a ping afterwards is answered
+            seq += 1;
+            let mut rec = id.to_be_bytes().to_vec();
+            crate::c06::put_ip16(&mut rec, &"127.0.0.1".parse().unwrap());
+            rec.extend_from_slice(&seq.to_be_bytes());
+            rec.push(64);
+            rec.extend_from_slice(&8u16.to_be_bytes());
+            let (st, _) = v.clients[0].request(rec).await;
+            let mut replied = false;
+            if st == "sent" {
+                for _ in 0..200 {
+                    for d in v.clients[0].take() {
+                        if let Some(e) = &d.encoded {
+                            if d.type_id == 0 && e.len() >= 22 && e[0..2] == id.to_be_bytes() && e[20..22] == seq.to_be_bytes() {
+                                replied = true;
+                            }
+                        }
+                    }
+                    if replied {
+                        break;
+                    }
+                    tokio::time::sleep(Duration::from_millis(5)).await;
+                }
+            }
+            if !replied {
+                problems.push(format!("after {} arrived from the network a ping to 127.0.0.1 was {}", what, if st == "sent" { "not answered within 1 s".to_string() } else { format!("not sent ({})", st) }));
+                break;
+            }
+        }
+        Ok(problems)
+    });
+    unsafe {
+        libc::close(fd4);
+        if fd6 >= 0 {
+            libc::close(fd6);
+        }
+    }
+    match res {
+        Ok(problems) => {
+            ctx.stat_add("malformed_icmp_packets_from_the_network", (v4_packets.len() + if fd6 >= 0 { v6_packets.len() } else { 0 }) as u64);
+            for p in problems {
+                ctx.oracle_failure("listener_stopped_by_a_packet", &p);
+            }
+        }
+        Err(e) => {
+            ctx.stat("raw_socket_unavailable");
+            ctx.notes.push(format!("malformed ICMP packets on the wire not tried: {}", e));
+        }
+    }
 }
 
 /// 7.3 records with every kind of TTL through the real decoder, the real `IcmpSink::write` and the real raw
